@@ -15,8 +15,8 @@ switch* is the parameter handed to ``crawl(fix=..)``.
 R17a  fixpoint exit.  Every way out of the pass loop that can be reached from an adoption
       without starting another pass — a ``break`` of the pass loop, a ``return`` inside it
       that hands back the working tree — is conditioned on a *flag* (``not <flag>``,
-      ``<flag> == 0`` ..) such that (i) every path from the adoption to that exit passes an
-      assignment giving the flag the opposite truth value, and (ii) no other assignment of
+      ``<flag> == 0`` ..) such that (i) every path of the pass through the adoption to that exit passes
+      an assignment giving the flag the opposite truth value (before or after the adoption), and (ii) no other assignment of
       the flag lies between such an assignment and the exit within the same pass.  A
       ``return`` that hands back a tree never rebound in the loop (the rollback of C18 R18b)
       needs no flag.  Exhaustion of the pass loop (the loop limit) while fixing never falls
@@ -45,7 +45,7 @@ the written text is the final tree's text (C30 R30a-c, C11 R11b, C26).
 from __future__ import annotations
 
 import ast
-from typing import Dict, List, Optional, Set, Tuple
+from typing import List, Optional, Set, Tuple
 
 from ..cfg import Branch, atoms, cfg_of, defs_of_stmt, origins
 from ..flowutil import branch_of, for_origin, param_origin
@@ -227,6 +227,7 @@ def _mark_sets(r: Roles, flag: str, truth: bool) -> List[ast.stmt]:
 def _r17a(chk, r: Roles) -> Set[int]:
     cfg, loop = r.cfg, r.pass_loop
     head = lambda n: n is loop  # noqa: E731
+    bt = branch_of(cfg, loop, True)
     leaves_: List[ast.stmt] = []
     for s in walk_local(loop):
         if not (isinstance(s, ast.stmt) and _in_block(s, loop.body)):
@@ -266,8 +267,10 @@ def _r17a(chk, r: Roles) -> Set[int]:
                 if point is not lv and cfg.paths_avoiding(a, lv, lambda n: n is loop or n is point):
                     why = f"the test on '{flag}' is evaluated ({short(point, 40)}) on a path before the adoption"
                     continue
-                if id(a) not in mids and cfg.paths_avoiding(a, point, lambda n: n is loop or id(n) in mids):
-                    why = f"a path from the adoption to the exit sets no '{flag}'"
+                blocked = lambda n: n is loop or id(n) in mids  # noqa: E731
+                marked_before = bt is not None and not cfg.paths_avoiding(bt, a, blocked)
+                if id(a) not in mids and not marked_before and cfg.paths_avoiding(a, point, blocked):
+                    why = f"a path through the adoption to the exit sets no '{flag}'"
                     continue
                 resets = [s for s in walk_local(loop) if isinstance(s, ast.stmt) and _in_block(s, loop.body) and _defines(s, flag) and id(s) not in mids]
                 bad = [d for d in resets for m in marks if cfg.paths_avoiding(m, d, head) and cfg.paths_avoiding(d, point, head)]
@@ -463,6 +466,12 @@ VARIANTS: List[Variant] = [
         "                    rules_this_phase = rule_pack.rules\n                progress_bar_crawler",
         "                    every_rule = list(rule_pack.rules)\n                    rules_this_phase = every_rule\n                progress_bar_crawler",
         "QUIET", None, "first-pass rule list through list() and a temp",
+    ),
+    Variant(
+        "quiet-adoption-arm-inverted-flag-set-first", LINTER,
+        "                            elif loop_check_tuple not in previous_versions:\n                                # We've not seen this version of the file so\n                                # far. Continue.\n                                tree = new_tree\n                                previous_versions.add(loop_check_tuple)\n                                changed = True\n                                continue\n                            else:\n                                # Applying these fixes took us back to a state\n                                # which we've seen before. We're in a loop, so\n                                # we want to stop.\n                                cls._warn_unfixable(crawler.code)\n",
+        "                            elif loop_check_tuple in previous_versions:\n                                cls._warn_unfixable(crawler.code)\n                            else:\n                                previous_versions.add(loop_check_tuple)\n                                changed = True\n                                tree = new_tree\n                                continue\n",
+        "QUIET", None, "membership test inverted, arms swapped, the flag set just before the tree is rebound",
     ),
     # ---- breaking edits -------------------------------------------------------------------------
     Variant(
